@@ -39,12 +39,7 @@ func init() {
 				mapCap = 64
 				hs = []int64{2, 3, 4, 5, 6, 10, 14, 18, 22, 25, 28, 30, 31, 33, 35}
 			}
-			type boxInfo struct {
-				H, V int64
-				set  map[string]bool
-			}
-			boxMemo := map[string]boxInfo{}
-			skipMemo := map[string]map[string]bool{}
+
 			return []engine.Phase{
 				{Name: "corridor", ShardDepth: 3, Bounds: engine.Bounds{EnvDev: dev, InputDev: -1},
 					Rule: "full product h x v in {h, h-1, 0} x base voxel (mid-grid north, equator, far south) x end offset (8 shapes, <= 12 line voxels) x radius in {0,0.3,1,1.5,2.5} local voxel widths x skip flag, each under all map-iteration executions within the deviation bound; oracle: duplicate-free, requested zooms, superset of the line IDs, radius 0 => exactly the line IDs, every added ID inside the N-layer box of the line for the maximal fitted layers, measured subset of skipped, no added voxel farther than the radius (independent ECEF distance), identical set across executions; non-trivial = distinct (segment, radius, flag) whose result has more IDs than the line",
@@ -75,157 +70,25 @@ func init() {
 						}
 						width := 4.0075016686e7 * math.Cos(lat0*math.Pi/180) / float64(n)
 						radius := mult * width
-						engine.SetHashSeed(0x5eed0001)
-						c.SetMapStartCap(mapCap)
-						line, err := shape.GetExtendedSpatialIdsOnLine(s, e, h, v)
-						if err != nil {
-							c.Skip("line-error")
-						}
-						if len(line) > 12 {
-							c.Skip("more-than-12-line-voxels")
-						}
-						// the layer fit only terminates if some shift along the row takes the voxel farther away than
-						// the radius: skip radii above 80% of the largest chord any line voxel can reach on its parallel
-						for _, l := range line {
-							vx := ref.MustExt(l)
-							latEdge := math.Max(math.Abs(ref.RowBoundaryLat(vx.Y, h)), math.Abs(ref.RowBoundaryLat(vx.Y+1, h)))
-							p0 := ref.ECEF(0, latEdge, 0)
-							rPar := math.Hypot(p0[0], p0[1])
-							gap := float64(n/2-1) / float64(n) * 2 * math.Pi
-							if radius > 0.8*2*rPar*math.Sin(gap/2) {
-								c.Skip("layer-fit-would-not-terminate-on-this-grid")
+						judgeCorridor(c, s, e, radius, h, v, skip, mapCap, "")
+					}},
+				{Name: "same-radius-sequences", Serial: true, Bounds: engine.Bounds{EnvDev: 0, InputDev: -1},
+					Rule: "sequences of three corridor queries in ONE execution with bit-identical (hZoom, vZoom, radius) at different latitudes (75N, equator, 60S and permutations; the voxel width differs by up to 4x) x h in {5,10,18,22} x 2 radii x skip flag: each query of the sequence must satisfy the full oracle (in particular stay inside the box fitted for ITS line), so state carried from one query to the next shows; non-trivial = distinct sequences",
+					Body: func(c *engine.Ctx) {
+						h := []int64{5, 10, 18, 22}[c.In("h", 4)]
+						v := h
+						n := int64(1) << uint(h)
+						radius := []float64{0.35, 0.7}[c.In("radius", 2)] * 4.0075016686e7 / float64(n)
+						skip := c.In("skip", 2) == 1
+						lats := [][]float64{{75, 0, -60}, {-60, 0, 75}, {0, 75, 0}, {75, -60, 40}}[c.In("order", 4)]
+						c.Nontrivial(fmt.Sprint(h, radius, skip, lats))
+						for _, la := range lats {
+							s, e1 := object.NewPoint(100.001, la, 10)
+							e, e2 := object.NewPoint(100.001+360/float64(n)*1.2, la, 10)
+							if e1 != nil || e2 != nil {
+								c.Skip("point-rejected")
 							}
-						}
-						call := fmt.Sprintf("transform.GetExtendedSpatialIdsWithinRadiusOfLine(NewPoint(%v,%v,%v), NewPoint(%v,%v,%v), %v, %d, %d, %v)", s.Lon(), s.Lat(), s.Alt(), e.Lon(), e.Lat(), e.Alt(), radius, h, v, skip)
-						refRes, refErr := transform.GetExtendedSpatialIdsWithinRadiusOfLine(s, e, radius, h, v, skip)
-						c.EnvMaps(true)
-						got, err := transform.GetExtendedSpatialIdsWithinRadiusOfLine(s, e, radius, h, v, skip)
-						c.EnvMaps(false)
-						c.Observe("%s -> %d %v", call, len(got), err)
-						c.CountN("map_points_met", int64(c.MapPointsSeen()))
-						d := map[string]any{"call": call, "line": line, "got_n": len(got)}
-						if err != nil || refErr != nil {
-							d["err"] = fmt.Sprint(err, refErr)
-							c.Violation("C14:corridor:error-on-valid-input", d)
-							return
-						}
-						if len(got) > len(line) {
-							c.Nontrivial(call)
-						}
-						c.Outcome(fmt.Sprint(call, len(got)))
-						if c.WantSample() && len(got) > len(line) {
-							c.Sample(map[string]any{"call": call, "line_ids": len(line), "result_ids": len(got)})
-						}
-						if canonStrings(got) != canonStrings(refRes) {
-							d["default_order_n"] = len(refRes)
-							c.Violation("C14:corridor:result-set-differs-between-executions", d)
-						}
-						if dp := dupOf(got); dp != "" {
-							d["dup"] = dp
-							c.Violation("C14:corridor:duplicate-in-result", d)
-						}
-						set := map[string]bool{}
-						for _, g := range got {
-							set[g] = true
-							vx, ok := ref.ParseExt(g)
-							if !ok || vx.H != h || vx.V != v {
-								d["bad"] = g
-								c.Violation("C14:corridor:id-not-at-requested-zooms", d)
-								return
-							}
-						}
-						lineSet := map[string]bool{}
-						for _, l := range line {
-							lineSet[l] = true
-							if !set[l] {
-								d["missing"] = l
-								c.Violation("C14:corridor:line-id-missing", d)
-							}
-						}
-						if radius == 0 && len(set) != len(lineSet) {
-							c.Violation("C14:corridor:radius-0-result-is-not-exactly-the-line", d)
-						}
-						// search box: maximal fitted layers over the line voxels (memoised per input: it does
-						// not depend on the environment choices of this execution)
-						mk := fmt.Sprint(line, radius)
-						bx, ok := boxMemo[mk]
-						if !ok {
-							for _, l := range line {
-								hl, vl, err := transform.FitClearanceAroundExtendedSpatialID(l, radius)
-								if err != nil {
-									c.Violation("C14:FitClearanceAroundExtendedSpatialID:error-on-valid-input", d)
-									return
-								}
-								if hl > bx.H {
-									bx.H = hl
-								}
-								if vl > bx.V {
-									bx.V = vl
-								}
-							}
-							box, err := operated.GetNspatialIdsAroundVoxcels(line, bx.H, bx.V)
-							if err != nil {
-								return
-							}
-							bx.set = map[string]bool{}
-							for _, x := range box {
-								bx.set[x] = true
-							}
-							if len(boxMemo) > 64 {
-								boxMemo = map[string]boxInfo{}
-							}
-							boxMemo[mk] = bx
-						}
-						H, V, boxSet := bx.H, bx.V, bx.set
-						for g := range set {
-							if !lineSet[g] && !boxSet[g] {
-								d["outside"], d["H"], d["V"] = g, H, V
-								c.Violation("C14:corridor:added-id-outside-the-fitted-layer-box", d)
-								break
-							}
-						}
-						if !skip {
-							sks, ok := skipMemo[call]
-							var err error
-							if !ok {
-								var sk []string
-								sk, err = transform.GetExtendedSpatialIdsWithinRadiusOfLine(s, e, radius, h, v, true)
-								sks = map[string]bool{}
-								for _, x := range sk {
-									sks[x] = true
-								}
-								if len(skipMemo) > 64 {
-									skipMemo = map[string]map[string]bool{}
-								}
-								if err == nil {
-									skipMemo[call] = sks
-								}
-							}
-							if err == nil {
-								for g := range set {
-									if !sks[g] {
-										d["not_in_skipped"] = g
-										c.Violation("C14:corridor:measured-result-not-a-subset-of-skipped-result", d)
-										break
-									}
-								}
-							}
-							// independent distance
-							p, q := ref.ECEF(s.Lon(), s.Lat(), 0), ref.ECEF(e.Lon(), e.Lat(), 0)
-							for g := range set {
-								if lineSet[g] {
-									continue
-								}
-								vx := ref.MustExt(g)
-								W, E := ref.LonBoundary(vx.X, h), ref.LonBoundary(vx.X+1, h)
-								N, S := ref.RowBoundaryLat(vx.Y, h), ref.RowBoundaryLat(vx.Y+1, h)
-								dist := ref.SegQuadDist(p, q, ref.ECEF(W, N, 0), ref.ECEF(E, N, 0), ref.ECEF(E, S, 0), ref.ECEF(W, S, 0))
-								if dist > radius*1.01+100 {
-									d["far"], d["distance_m"], d["radius_m"] = g, dist, radius
-									c.Violation("C14:corridor:added-voxel-farther-than-radius", d)
-									break
-								}
-							}
+							judgeCorridor(c, s, e, radius, h, v, skip, 16, "sequence")
 						}
 					}},
 				{Name: "argument-errors", Serial: true, Bounds: engine.Bounds{InputDev: -1},
@@ -251,4 +114,171 @@ func init() {
 			}
 		},
 	})
+}
+
+type corridorBox struct {
+	H, V int64
+	set  map[string]bool
+}
+
+var (
+	boxMemo  = map[string]corridorBox{}
+	skipMemo = map[string]map[string]bool{}
+)
+
+// judgeCorridor applies the C14 oracle to one corridor query; tag distinguishes phases in signatures' details.
+func judgeCorridor(c *engine.Ctx, s, e *object.Point, radius float64, h, v int64, skip bool, mapCap int, tag string) {
+	n := int64(1) << uint(h)
+	engine.SetHashSeed(0x5eed0001)
+	c.SetMapStartCap(mapCap)
+	line, err := shape.GetExtendedSpatialIdsOnLine(s, e, h, v)
+	if err != nil {
+		c.Skip("line-error")
+	}
+	if len(line) > 12 {
+		c.Skip("more-than-12-line-voxels")
+	}
+	// the layer fit only terminates if some shift along the row takes the voxel farther away than
+	// the radius: skip radii above 80% of the largest chord any line voxel can reach on its parallel
+	for _, l := range line {
+		vx := ref.MustExt(l)
+		latEdge := math.Max(math.Abs(ref.RowBoundaryLat(vx.Y, h)), math.Abs(ref.RowBoundaryLat(vx.Y+1, h)))
+		p0 := ref.ECEF(0, latEdge, 0)
+		rPar := math.Hypot(p0[0], p0[1])
+		gap := float64(n/2-1) / float64(n) * 2 * math.Pi
+		if radius > 0.8*2*rPar*math.Sin(gap/2) {
+			c.Skip("layer-fit-would-not-terminate-on-this-grid")
+		}
+	}
+	call := fmt.Sprintf("transform.GetExtendedSpatialIdsWithinRadiusOfLine(NewPoint(%v,%v,%v), NewPoint(%v,%v,%v), %v, %d, %d, %v)", s.Lon(), s.Lat(), s.Alt(), e.Lon(), e.Lat(), e.Alt(), radius, h, v, skip)
+	refRes, refErr := transform.GetExtendedSpatialIdsWithinRadiusOfLine(s, e, radius, h, v, skip)
+	c.EnvMaps(true)
+	got, err := transform.GetExtendedSpatialIdsWithinRadiusOfLine(s, e, radius, h, v, skip)
+	c.EnvMaps(false)
+	c.Observe("%s -> %d %v", call, len(got), err)
+	c.CountN("map_points_met", int64(c.MapPointsSeen()))
+	d := map[string]any{"call": call, "line": line, "got_n": len(got)}
+	if err != nil || refErr != nil {
+		d["err"] = fmt.Sprint(err, refErr)
+		c.Violation("C14:corridor:error-on-valid-input", d)
+		return
+	}
+	if len(got) > len(line) {
+		c.Nontrivial(call)
+	}
+	c.Outcome(fmt.Sprint(call, len(got)))
+	if c.WantSample() && len(got) > len(line) {
+		c.Sample(map[string]any{"call": call, "line_ids": len(line), "result_ids": len(got)})
+	}
+	if canonStrings(got) != canonStrings(refRes) {
+		d["default_order_n"] = len(refRes)
+		c.Violation("C14:corridor:result-set-differs-between-executions", d)
+	}
+	if dp := dupOf(got); dp != "" {
+		d["dup"] = dp
+		c.Violation("C14:corridor:duplicate-in-result", d)
+	}
+	set := map[string]bool{}
+	for _, g := range got {
+		set[g] = true
+		vx, ok := ref.ParseExt(g)
+		if !ok || vx.H != h || vx.V != v {
+			d["bad"] = g
+			c.Violation("C14:corridor:id-not-at-requested-zooms", d)
+			return
+		}
+	}
+	lineSet := map[string]bool{}
+	for _, l := range line {
+		lineSet[l] = true
+		if !set[l] {
+			d["missing"] = l
+			c.Violation("C14:corridor:line-id-missing", d)
+		}
+	}
+	if radius == 0 && len(set) != len(lineSet) {
+		c.Violation("C14:corridor:radius-0-result-is-not-exactly-the-line", d)
+	}
+	// search box: maximal fitted layers over the line voxels (memoised per input: it does
+	// not depend on the environment choices of this execution)
+	mk := fmt.Sprint(line, radius)
+	bx, ok := boxMemo[mk]
+	if !ok {
+		for _, l := range line {
+			hl, vl, err := transform.FitClearanceAroundExtendedSpatialID(l, radius)
+			if err != nil {
+				c.Violation("C14:FitClearanceAroundExtendedSpatialID:error-on-valid-input", d)
+				return
+			}
+			if hl > bx.H {
+				bx.H = hl
+			}
+			if vl > bx.V {
+				bx.V = vl
+			}
+		}
+		box, err := operated.GetNspatialIdsAroundVoxcels(line, bx.H, bx.V)
+		if err != nil {
+			return
+		}
+		bx.set = map[string]bool{}
+		for _, x := range box {
+			bx.set[x] = true
+		}
+		if len(boxMemo) > 64 {
+			boxMemo = map[string]corridorBox{}
+		}
+		boxMemo[mk] = bx
+	}
+	H, V, boxSet := bx.H, bx.V, bx.set
+	for g := range set {
+		if !lineSet[g] && !boxSet[g] {
+			d["outside"], d["H"], d["V"] = g, H, V
+			c.Violation("C14:corridor:added-id-outside-the-fitted-layer-box", d)
+			break
+		}
+	}
+	if !skip {
+		sks, ok := skipMemo[call]
+		var err error
+		if !ok {
+			var sk []string
+			sk, err = transform.GetExtendedSpatialIdsWithinRadiusOfLine(s, e, radius, h, v, true)
+			sks = map[string]bool{}
+			for _, x := range sk {
+				sks[x] = true
+			}
+			if len(skipMemo) > 64 {
+				skipMemo = map[string]map[string]bool{}
+			}
+			if err == nil {
+				skipMemo[call] = sks
+			}
+		}
+		if err == nil {
+			for g := range set {
+				if !sks[g] {
+					d["not_in_skipped"] = g
+					c.Violation("C14:corridor:measured-result-not-a-subset-of-skipped-result", d)
+					break
+				}
+			}
+		}
+		// independent distance
+		p, q := ref.ECEF(s.Lon(), s.Lat(), 0), ref.ECEF(e.Lon(), e.Lat(), 0)
+		for g := range set {
+			if lineSet[g] {
+				continue
+			}
+			vx := ref.MustExt(g)
+			W, E := ref.LonBoundary(vx.X, h), ref.LonBoundary(vx.X+1, h)
+			N, S := ref.RowBoundaryLat(vx.Y, h), ref.RowBoundaryLat(vx.Y+1, h)
+			dist := ref.SegQuadDist(p, q, ref.ECEF(W, N, 0), ref.ECEF(E, N, 0), ref.ECEF(E, S, 0), ref.ECEF(W, S, 0))
+			if dist > radius*1.01+100 {
+				d["far"], d["distance_m"], d["radius_m"] = g, dist, radius
+				c.Violation("C14:corridor:added-voxel-farther-than-radius", d)
+				break
+			}
+		}
+	}
 }
